@@ -347,3 +347,255 @@ REGISTRY = {
     'Geodesy.vincinv_utm': (GD.vincinv_utm, g_vincinv_utm),
     'Geodesy.vincdir_utm': (GD.vincdir_utm, g_vincdir_utm),
 }
+
+
+# ------------------------------------------------------------------------------------------
+# statistics / transform / constants
+import datetime
+import numpy as np
+import geodepy.statistics as ST
+import geodepy.transform as TF
+import common as _common
+
+TRANS_NAMES = [n for n, v in vars(K).items() if isinstance(v, K.Transformation)]
+TRANS_IDS = {}
+
+
+def date_tok(d):
+    if isinstance(d, datetime.date):
+        return f'{d.year}-{d.month}-{d.day}'
+    return 'none'
+
+
+def enc_sd(sd):
+    if sd is None:
+        return ['none'] + ['none'] * 14 + ['0']
+    f = ['sd_tx', 'sd_ty', 'sd_tz', 'sd_sc', 'sd_rx', 'sd_ry', 'sd_rz',
+         'sd_d_tx', 'sd_d_ty', 'sd_d_tz', 'sd_d_sc', 'sd_d_rx', 'sd_d_ry', 'sd_d_rz']
+    return ['some'] + ['none' if getattr(sd, x) is None else fhex(getattr(sd, x)) for x in f] + ['0']
+
+
+TF_FIELDS = ['tx', 'ty', 'tz', 'sc', 'rx', 'ry', 'rz', 'd_tx', 'd_ty', 'd_tz', 'd_sc', 'd_rx', 'd_ry', 'd_rz']
+
+
+def enc_trans(t):
+    return ['s:' + t.from_datum, 's:' + t.to_datum, date_tok(t.ref_epoch)] + [fhex(getattr(t, x)) for x in TF_FIELDS] \
+        + enc_sd(t.tf_sd) + ['0']
+
+
+def wire_sd(sd):
+    if sd is None:
+        return 'none'
+    f = ['sd_tx', 'sd_ty', 'sd_tz', 'sd_sc', 'sd_rx', 'sd_ry', 'sd_rz',
+         'sd_d_tx', 'sd_d_ty', 'sd_d_tz', 'sd_d_sc', 'sd_d_rx', 'sd_d_ry', 'sd_d_rz']
+    return 'TransformationSD ' + ' '.join('none' if getattr(sd, x) is None else fhex(getattr(sd, x)) for x in f)
+
+
+def wire_trans(t):
+    d = t.ref_epoch
+    dw = f'i:{d.year} i:{d.month} i:{d.day}' if isinstance(d, datetime.date) else 'none'
+    return 'Transformation s:' + t.from_datum + ' s:' + t.to_datum + ' ' + dw + ' ' + \
+        ' '.join(fhex(getattr(t, x)) for x in TF_FIELDS) + ' ' + wire_sd(t.tf_sd)
+
+
+_orig_wire_value = _common.wire_value
+
+
+def wire_value(v):
+    if isinstance(v, K.Transformation):
+        return wire_trans(v)
+    if isinstance(v, K.TransformationSD):
+        return wire_sd(v)
+    if isinstance(v, (tuple, list)):
+        return ' '.join(wire_value(x) for x in v)
+    return _orig_wire_value(v)
+
+
+_common.wire_value = wire_value
+
+_old_encode = encode_arg
+
+
+def encode_arg(kind, v):  # noqa: F811
+    if kind == 'date':
+        return [date_tok(v)]
+    if kind == 'dateval':
+        return [date_tok(v)]
+    if isinstance(kind, list) and kind[0] == 'struct' and kind[1] == 'Transformation':
+        return enc_trans(v)
+    if isinstance(kind, list) and kind[0] == 'optmat':
+        if v is None:
+            return ['none'] + [fhex(0.0)] * (kind[1] * kind[2])
+        return ['some'] + [fhex(x) for x in np.asarray(v, dtype=float).flatten()]
+    return _old_encode(kind, v)
+
+
+def rand_date(rng):
+    r = rng.random()
+    if r < 0.1:
+        return datetime.date(2020, 1, 1)
+    if r < 0.2:
+        return rng.choice([datetime.date(2000, 2, 29), datetime.date(1994, 1, 1), datetime.date(2060, 12, 31),
+                           datetime.date(1980, 1, 1), datetime.date(2010, 1, 1)])
+    return datetime.date(1980, 1, 1) + datetime.timedelta(days=rng.randint(0, 29585))
+
+
+def rand_sd(rng, with_rates):
+    vals = [rng.uniform(0, 0.01) for _ in range(14)]
+    if not with_rates:
+        return K.TransformationSD(*vals[:7])
+    return K.TransformationSD(*vals)
+
+
+def rand_trans(rng, dated=None, sd=None):
+    """a shipped set, or a random set with |t| <= 1000 m, |scale| <= 100 ppm, |rot| < 60 arcsec"""
+    if rng.random() < 0.5:
+        t = getattr(K, rng.choice(TRANS_NAMES))
+        if dated is True and not isinstance(t.ref_epoch, datetime.date):
+            t = K.itrf2014_to_gda2020
+        return t
+    d = rand_date(rng) if (dated or (dated is None and rng.random() < 0.7)) else 0
+    rate = (lambda s: rng.uniform(-s, s)) if d != 0 else (lambda s: 0.0)
+    tf_sd = None
+    if sd is True or (sd is None and rng.random() < 0.5):
+        tf_sd = rand_sd(rng, d != 0)
+    rot = lambda: round(rng.uniform(-59.9, 59.9), rng.choice([2, 4, 7])) if rng.random() < 0.8 else rng.uniform(-59.9, 59.9)
+    return K.Transformation('A', 'B', d, rng.uniform(-1000, 1000), rng.uniform(-1000, 1000), rng.uniform(-1000, 1000),
+                            rng.uniform(-100, 100), rot(), rot(), rot(),
+                            rate(0.01), rate(0.01), rate(0.01), rate(0.001), rate(0.01), rate(0.01), rate(0.01), tf_sd)
+
+
+def rand_xyz(rng, mag=5e7):
+    s = lambda: rng.choice([-1, 1])
+    if rng.random() < 0.6:
+        lat, lon = rng.uniform(-90, 90), rng.uniform(-180, 180)
+        return CV.llh2xyz(lat, lon, rng.uniform(-100, 9000))
+    return s() * rng.uniform(0, mag), s() * rng.uniform(0, mag), s() * rng.uniform(0, mag)
+
+
+def rand_psd(rng, n=3):
+    a = np.array([[rng.gauss(0, 1) for _ in range(n)] for _ in range(n)])
+    scale = 10 ** rng.uniform(-8, -2)
+    r = rng.random()
+    if r < 0.15:
+        a[:, 2] = 0      # rank deficient
+    if r > 0.85:
+        return np.diag([rng.uniform(0, 1) * scale for _ in range(n)])
+    return (a @ a.T) * scale
+
+
+def g_conform7(rng):
+    x, y, z = rand_xyz(rng)
+    t = rand_trans(rng)
+    v = rand_psd(rng) if rng.random() < 0.6 else None
+    return [x, y, z, t, v]
+
+
+def g_conform14(rng):
+    x, y, z = rand_xyz(rng, 1e7)
+    t = rand_trans(rng, dated=True)
+    d = rand_date(rng)
+    if rng.random() < 0.15:
+        d = t.ref_epoch
+    return [x, y, z, d, t, rand_psd(rng) if rng.random() < 0.6 else None]
+
+
+def g_mga(rng):
+    z, e, n, h, _, _ = grid_point(rng, K.grs80, K.utm)
+    if rng.random() < 0.8:
+        z, e, n = rng.randint(46, 59), rng.uniform(1e5, 9e5), rng.uniform(3.4e6, 9.4e6)
+    ht = rng.choice([None, 0.0, rng.uniform(-100, 3000)])
+    return [z, e, n, ht, rand_psd(rng) if rng.random() < 0.5 else None]
+
+
+def impl_mga(fn):
+    def f(zone, east, north, ell_ht, vcv):
+        return fn(zone, east, north, False if ell_ht is None else ell_ht, vcv)
+    return f
+
+
+def g_atrf(rng):
+    x, y, z = rand_xyz(rng, 1e7)
+    return [x, y, z, rand_date(rng), rand_psd(rng) if rng.random() < 0.5 else None]
+
+
+def g_latlon(rng):
+    return [pick(rng, [0.0, 90.0, -90.0, 45.0], -90, 90, 0.2), pick(rng, [0.0, 90.0, 180.0, -180.0, 270.0, 360.0, -360.0], -360, 360, 0.2)]
+
+
+def g_vcv33(rng):
+    return [rand_psd(rng)] + g_latlon(rng)
+
+
+def g_vcv31(rng):
+    return [np.array([[rng.uniform(0, 1e-3)] for _ in range(3)])] + g_latlon(rng)
+
+
+def g_enu(rng):
+    m = 10 ** rng.uniform(-3, 7)
+    return g_latlon(rng) + [rng.uniform(-m, m), rng.uniform(-m, m), rng.uniform(-m, m)]
+
+
+def g_iers(rng):
+    vals = [round(rng.uniform(-100, 100), rng.choice([0, 1, 2, 3, 5])) for _ in range(14)]
+    if rng.random() < 0.1:
+        vals = [rng.uniform(-100, 100) for _ in range(14)]
+    return ['ITRF2014', 'ITRF2008', rand_date(rng)] + vals
+
+
+def g_trans_add(rng):
+    return [rand_trans(rng, dated=True), rand_date(rng)]
+
+
+REGISTRY.update({
+    'Statistics.rotation_matrix': (ST.rotation_matrix, g_latlon),
+    'Statistics.vcv_cart2local_33': (ST.vcv_cart2local, g_vcv33),
+    'Statistics.vcv_cart2local_31': (ST.vcv_cart2local, g_vcv31),
+    'Statistics.vcv_local2cart_33': (ST.vcv_local2cart, g_vcv33),
+    'Statistics.vcv_local2cart_31': (ST.vcv_local2cart, g_vcv31),
+    'Statistics.error_ellipse': (ST.error_ellipse, lambda r: [rand_psd(r)]),
+    'Statistics.relative_error': (ST.relative_error, lambda r: g_latlon(r) + [rand_psd(r), rand_psd(r), rand_psd(r) * 0.1]),
+    'Statistics.circ_hz_pu': (ST.circ_hz_pu, lambda r: (lambda a: [a, a * r.uniform(0, 1)])(10 ** r.uniform(-4, 0))),
+    'Statistics.k_val95': (ST.k_val95, lambda r: [r.randint(-5, 200)]),
+    'Geodesy.enu2xyz': (GD.enu2xyz, g_enu),
+    'Geodesy.xyz2enu': (GD.xyz2enu, g_enu),
+    'Constants.iers2trans': (K.iers2trans, g_iers),
+    'Constants.Transformation.neg': (lambda t: -t, lambda r: [rand_trans(r)]),
+    'Constants.Transformation.add': (lambda t, d: t + d, g_trans_add),
+    'Transform.conform7': (TF.conform7, g_conform7),
+    'Transform.conform14': (TF.conform14, g_conform14),
+    'Transform.transform_mga94_to_mga2020': (impl_mga(TF.transform_mga94_to_mga2020), g_mga),
+    'Transform.transform_mga2020_to_mga94': (impl_mga(TF.transform_mga2020_to_mga94), g_mga),
+    'Transform.transform_atrf2014_to_gda2020': (TF.transform_atrf2014_to_gda2020, g_atrf),
+    'Transform.transform_gda2020_to_atrf2014': (TF.transform_gda2020_to_atrf2014, g_atrf),
+})
+
+
+# Tolerances of the tie for functions whose implementation goes through numpy `@` (BLAS kernels may fuse
+# multiply-adds and reorder sums: a few ulp of the operand scale) or that round a value computed that way.
+# Everything not listed here is compared bit for bit.
+TIE_TOL = {
+    'Statistics.vcv_cart2local_33': [(9, 'scaled', 16)],
+    'Statistics.vcv_cart2local_31': [(3, 'scaled', 16)],
+    'Statistics.vcv_local2cart_33': [(9, 'scaled', 16)],
+    'Statistics.vcv_local2cart_31': [(3, 'scaled', 16)],
+    'Statistics.relative_error': [(2, 'scaled', 64), (1, 'abs', 1e-6), (1, 'scaled', 64)],
+    'Geodesy.enu2xyz': [(3, 'scaled', 8)],
+    'Geodesy.xyz2enu': [(3, 'scaled', 8)],
+    'Transform.conform7': [(3, 'scaled', 8), (9, 'scaled', 32)],
+    'Transform.conform14': [(3, 'scaled', 8), (9, 'scaled', 32)],
+    'Transform.transform_atrf2014_to_gda2020': [(3, 'scaled', 8), (9, 'scaled', 32)],
+    'Transform.transform_gda2020_to_atrf2014': [(3, 'scaled', 8), (9, 'scaled', 32)],
+    'Transform.transform_mga94_to_mga2020': [(1, 'exact', 0), (3, 'abs', 1.0000001e-4), (9, 'scaled', 64)],
+    'Transform.transform_mga2020_to_mga94': [(1, 'exact', 0), (3, 'abs', 1.0000001e-4), (9, 'scaled', 64)],
+}
+
+
+def impl_catalogue(cls):
+    def f():
+        return [(n, v) for n, v in vars(K).items() if type(v) is cls]
+    return f
+
+
+REGISTRY['Constants.catalogue_Transformation'] = (impl_catalogue(K.Transformation), lambda r: [])
+REGISTRY['Constants.catalogue_TransformationSD'] = (impl_catalogue(K.TransformationSD), lambda r: [])
